@@ -1,4 +1,4 @@
-"""C13, the tree mutators of the DOM layer: `NodeMut for XmlElement` -- `insert_before`, `remove_child` (dom/src/lib.rs): the
+"""C13, the tree mutators of the DOM layer: `NodeMut for XmlElement` and `NodeMut for XmlDocument` -- `insert_before`, `remove_child` (dom/src/lib.rs): the
 exception mapping and the "a refused call changes nothing" half at the layer the caller sees.  What the information-set layer
 below does is proved in units/c13_tree.py (`HasChildren::insert_before / append / delete`: refuse and change nothing, or perform);
 here those are ASSUMED callees: a refusal changes nothing, `OufOfIndex` is answered exactly when the reference is not a child (or
@@ -9,8 +9,8 @@ DOM Level 1: WRONG_DOCUMENT_ERR when the new child or the reference child belong
 reference (or the child to remove) is not a child of this node, HIERARCHY_REQUEST_ERR / NotSupportErr when the node kind cannot be
 a child at all (the conversion of units/c13_convert.py) or the layer below refuses; every error leaves the world as it was; a
 performed call has the effect of the layer below and answers the node; and the call IS performed whenever none of these stands
-against it.  `NodeMut for XmlDocument` has the same shape (plus replace_child, DESIGN 9.23) and is covered by the bounded grid
-dom.seq_atomic only."""
+against it.  `NodeMut for XmlDocument` has the same shape and the same contract (its own `replace_child`, DESIGN 9.23, stays with the
+bounded grid dom.seq_atomic).  For the document, `owner_document()` of the document node is None: `Some(self.clone()) != x.owner_document()`."""
 from vf.unit import Fn, Rule
 
 FD = 'dom/src/lib.rs'
@@ -29,6 +29,7 @@ pub mod xml_info { pub mod error {
 pub struct ElemH { pub ident: usize }
 pub struct ItemRef { pub ident: usize }
 pub struct XmlElement { pub element: ElemH }
+pub struct XmlDocument { pub document: ElemH }   // the same handle type: only its id matters here
 pub struct XmlNode { pub ident: usize }     // any DOM node (its kind does not matter here: the conversion below decides)
 
 pub uninterp spec fn doc_of(node: usize) -> usize;              // the document a node belongs to: never changes
@@ -89,6 +90,11 @@ impl XmlElement {
 
     //@@ remove_child
 }
+impl XmlDocument {
+    //@@ doc_insert_before
+
+    //@@ doc_remove_child
+}
 
 } // verus!
 impl std::fmt::Debug for error::Error { fn fmt(&self, f: &mut std::fmt::Formatter<'_>) -> std::fmt::Result { write!(f, "Error") } }
@@ -106,42 +112,45 @@ DOM = lambda c: f'error::Error::Dom(error::DomException::{c})'
 def build():
     P = ['C13']
     fns = {}
-    fns['insert_before'] = Fn(
-        FD, OWNER, 'insert_before', props=P, safety_props=P, label='dom::XmlElement::insert_before', sig_rules=SIG,
-        rules=[R_ERR,
-               Rule('R43', r'self\.owner_document\(\) != new_child\.owner_document\(\)', f'world.documents_differ({ME}, new_child.ident)', 'PartialEq of dom::XmlDocument (identity of the document) -> assumed callee'),
-               Rule('R43', r'self\.owner_document\(\) != r\.owner_document\(\)', f'world.documents_differ({ME}, r.ident)', 'the same for the reference child'),
-               Rule('R43', r'match self\s*\.element\s*\.borrow\(\)\s*\.insert_before\(new_child\.try_into\(\)\?, r\.id\(\)\)\s*\{',
-                    KEEP_NL('let __item = node_to_item(new_child)?; match world.info_insert_before(&self.element, __item, r.id()) {'),
-                    'RefCell borrow dropped (A4); the argument `new_child.try_into()?` is evaluated first (named temporary); the layer below edits the shared world'),
-               Rule('R16', r'Err\(xml_info::error::Error::OufOfIndex\(_\)\) => Err\(error::DomException::NotFoundErr\),', f'Err(xml_info::error::Error::OufOfIndex(_)) => Err({DOM("NotFoundErr")}),', 'From<DomException> applied by hand (what the trailing `?` does)'),
-               Rule('R16', r'_ => Err\(error::DomException::HierarchyRequestErr\),\s*\}\?', KEEP_NL(f'_ => Err({DOM("HierarchyRequestErr")}), }}?'), 'the same'),
-               Rule('R43', r'self\.element\s*\.borrow\(\)\s*\.append\(new_child\.try_into\(\)\?\)\s*\.map_err\(\|_\w*\| error::DomException::HierarchyRequestErr\)\?',
-                    KEEP_NL(f'{{ let __item = node_to_item(new_child)?; match world.info_append(&self.element, __item) {{ Ok(v) => v, Err(_) => return Err({DOM("HierarchyRequestErr")}) }} }}'),
-                    'RefCell borrow dropped (A4); Result::map_err(closure) + `?` spelled out as a match'),
-               Rule('R48', r'Ok\(XmlNode::from\(value\)\)', 'Ok(node_of(value))', 'From<Rc<XmlItem>> for XmlNode -> shim (units/c13_convert.py)')],
-        ensures=[('C13:a_child_of_another_document_is_refused', f'doc_of({ME}) != doc_of(new_child.ident) ==> r is Err && r->Err_0 == {DOM("WrongDocumentErr")}'),
-                 ('C13:a_reference_of_another_document_is_refused', f'doc_of({ME}) == doc_of(new_child.ident) && ref_child is Some && doc_of({ME}) != doc_of(ref_child->Some_0.ident) ==> r is Err && r->Err_0 == {DOM("WrongDocumentErr")}'),
-                 ('C13:a_reference_that_is_not_a_child_is_not_found',
-                  f'doc_of({ME}) == doc_of(new_child.ident) && ref_child is Some && doc_of({ME}) == doc_of(ref_child->Some_0.ident) && convertible(new_child.ident)'
-                  f' && (!old(world).list({ME}).contains(ref_child->Some_0.ident) || ref_child->Some_0.ident == new_child.ident) ==> r is Err && r->Err_0 == {DOM("NotFoundErr")}'),
-                 ('C13:every_error_is_one_of_the_specified_classes_and_changes_nothing',
-                  f'r is Err ==> final(world).unchanged(*old(world)) && (r->Err_0 == {DOM("WrongDocumentErr")} || r->Err_0 == {DOM("NotFoundErr")} || r->Err_0 == {DOM("HierarchyRequestErr")} || r->Err_0 == {DOM("NotSupportErr")})'),
-                 ('C13:a_performed_call_has_the_effect_of_the_layer_below_and_answers_the_node',
-                  f'r is Ok ==> r->Ok_0.ident == new_child.ident && final(world).inserted(*old(world), {ME}, new_child.ident, match ref_child {{ Some(x) => Some(x.ident), None => None::<usize> }})'),
-                 ('C13:the_call_is_performed_whenever_nothing_stands_against_it',
-                  f'doc_of({ME}) == doc_of(new_child.ident) && convertible(new_child.ident) && !refused_below(*old(world), {ME}, new_child.ident)'
-                  f' && (ref_child is Some ==> doc_of({ME}) == doc_of(ref_child->Some_0.ident) && old(world).list({ME}).contains(ref_child->Some_0.ident) && ref_child->Some_0.ident != new_child.ident) ==> r is Ok')])
-    fns['remove_child'] = Fn(
-        FD, OWNER, 'remove_child', props=P, safety_props=P, label='dom::XmlElement::remove_child', sig_rules=[Rule('R43', r'\(&self,', '(&self, world: &mut World,', 'explicit world parameter'), SIG[1]],
-        rules=[R_ERR,
-               Rule('R43', r'self\.owner_document\(\) != old_child\.owner_document\(\)', f'world.documents_differ({ME}, old_child.ident)', 'PartialEq of dom::XmlDocument (identity) -> assumed callee'),
-               Rule('R43', r'match self\.element\.borrow\(\)\.delete\(old_child\.id\(\)\) \{', 'match world.info_delete(&self.element, old_child.id()) {', 'RefCell borrow dropped (A4); the layer below edits the shared world'),
-               Rule('R48', r'Some\(v\) => Ok\(XmlNode::from\(v\)\),', 'Some(v) => Ok(node_of(v)),', 'From<Rc<XmlItem>> for XmlNode -> shim'),
-               Rule('R16', r'_ => Err\((error::DomException::\w+)\)\?,', r'_ => Err(error::Error::Dom(\1)),', '`Err(x)?` as the value of an arm: From<DomException> applied by hand')],
-        ensures=[('C13:a_node_of_another_document_is_refused', f'doc_of({ME}) != doc_of(old_child.ident) ==> r is Err && r->Err_0 == {DOM("WrongDocumentErr")} && final(world).unchanged(*old(world))'),
-                 ('C13:a_node_that_is_not_a_child_is_not_found', f'doc_of({ME}) == doc_of(old_child.ident) && !old(world).list({ME}).contains(old_child.ident) ==> r is Err && r->Err_0 == {DOM("NotFoundErr")} && final(world).unchanged(*old(world))'),
-                 ('C13:a_child_is_removed_and_answered', f'doc_of({ME}) == doc_of(old_child.ident) && old(world).list({ME}).contains(old_child.ident) ==> r is Ok && r->Ok_0.ident == old_child.ident && final(world).deleted(*old(world), {ME}, old_child.ident)')])
+    for (prefix, owner, field, label, differs) in (('', 'impl NodeMut for XmlElement', 'element', 'dom::XmlElement', r'self\.owner_document\(\) != {x}\.owner_document\(\)'),
+                                                    ('doc_', 'impl NodeMut for XmlDocument', 'document', 'dom::XmlDocument', r'Some\(self\.clone\(\)\) != {x}\.owner_document\(\)')):
+        ME = f'self.{field}.ident'
+        fns[prefix + 'insert_before'] = Fn(
+            FD, owner, 'insert_before', props=P, safety_props=P, label=label + '::insert_before', sig_rules=SIG,
+            rules=[R_ERR,
+                   Rule('R43', differs.format(x='new_child'), f'world.documents_differ({ME}, new_child.ident)', 'PartialEq of dom::XmlDocument (identity of the document) -> assumed callee'),
+                   Rule('R43', differs.format(x='r'), f'world.documents_differ({ME}, r.ident)', 'the same for the reference child'),
+                   Rule('R43', r'match self\s*\.' + field + r'\s*\.borrow\(\)\s*\.insert_before\(new_child\.try_into\(\)\?, r\.id\(\)\)\s*\{',
+                        KEEP_NL(f'let __item = node_to_item(new_child)?; match world.info_insert_before(&self.{field}, __item, r.id()) {{'),
+                        'RefCell borrow dropped (A4); the argument `new_child.try_into()?` is evaluated first (named temporary); the layer below edits the shared world'),
+                   Rule('R16', r'Err\(xml_info::error::Error::OufOfIndex\(_\)\) => Err\(error::DomException::NotFoundErr\),', f'Err(xml_info::error::Error::OufOfIndex(_)) => Err({DOM("NotFoundErr")}),', 'From<DomException> applied by hand (what the trailing `?` does)'),
+                   Rule('R16', r'_ => Err\(error::DomException::HierarchyRequestErr\),\s*\}\?', KEEP_NL(f'_ => Err({DOM("HierarchyRequestErr")}), }}?'), 'the same'),
+                   Rule('R43', r'self\.' + field + r'\s*\.borrow\(\)\s*\.append\(new_child\.try_into\(\)\?\)\s*\.map_err\(\|_\w*\| error::DomException::HierarchyRequestErr\)\?',
+                        KEEP_NL(f'{{ let __item = node_to_item(new_child)?; match world.info_append(&self.{field}, __item) {{ Ok(v) => v, Err(_) => return Err({DOM("HierarchyRequestErr")}) }} }}'),
+                        'RefCell borrow dropped (A4); Result::map_err(closure) + `?` spelled out as a match'),
+                   Rule('R48', r'Ok\(XmlNode::from\(value\)\)', 'Ok(node_of(value))', 'From<Rc<XmlItem>> for XmlNode -> shim (units/c13_convert.py)')],
+            ensures=[('C13:a_child_of_another_document_is_refused', f'doc_of({ME}) != doc_of(new_child.ident) ==> r is Err && r->Err_0 == {DOM("WrongDocumentErr")}'),
+                     ('C13:a_reference_of_another_document_is_refused', f'doc_of({ME}) == doc_of(new_child.ident) && ref_child is Some && doc_of({ME}) != doc_of(ref_child->Some_0.ident) ==> r is Err && r->Err_0 == {DOM("WrongDocumentErr")}'),
+                     ('C13:a_reference_that_is_not_a_child_is_not_found',
+                      f'doc_of({ME}) == doc_of(new_child.ident) && ref_child is Some && doc_of({ME}) == doc_of(ref_child->Some_0.ident) && convertible(new_child.ident)'
+                      f' && (!old(world).list({ME}).contains(ref_child->Some_0.ident) || ref_child->Some_0.ident == new_child.ident) ==> r is Err && r->Err_0 == {DOM("NotFoundErr")}'),
+                     ('C13:every_error_is_one_of_the_specified_classes_and_changes_nothing',
+                      f'r is Err ==> final(world).unchanged(*old(world)) && (r->Err_0 == {DOM("WrongDocumentErr")} || r->Err_0 == {DOM("NotFoundErr")} || r->Err_0 == {DOM("HierarchyRequestErr")} || r->Err_0 == {DOM("NotSupportErr")})'),
+                     ('C13:a_performed_call_has_the_effect_of_the_layer_below_and_answers_the_node',
+                      f'r is Ok ==> r->Ok_0.ident == new_child.ident && final(world).inserted(*old(world), {ME}, new_child.ident, match ref_child {{ Some(x) => Some(x.ident), None => None::<usize> }})'),
+                     ('C13:the_call_is_performed_whenever_nothing_stands_against_it',
+                      f'doc_of({ME}) == doc_of(new_child.ident) && convertible(new_child.ident) && !refused_below(*old(world), {ME}, new_child.ident)'
+                      f' && (ref_child is Some ==> doc_of({ME}) == doc_of(ref_child->Some_0.ident) && old(world).list({ME}).contains(ref_child->Some_0.ident) && ref_child->Some_0.ident != new_child.ident) ==> r is Ok')])
+        fns[prefix + 'remove_child'] = Fn(
+            FD, owner, 'remove_child', props=P, safety_props=P, label=label + '::remove_child', sig_rules=[Rule('R43', r'\(&self,', '(&self, world: &mut World,', 'explicit world parameter'), SIG[1]],
+            rules=[R_ERR,
+                   Rule('R43', differs.format(x='old_child'), f'world.documents_differ({ME}, old_child.ident)', 'PartialEq of dom::XmlDocument (identity) -> assumed callee'),
+                   Rule('R43', r'match self\.' + field + r'\.borrow\(\)\.delete\(old_child\.id\(\)\) \{', f'match world.info_delete(&self.{field}, old_child.id()) {{', 'RefCell borrow dropped (A4); the layer below edits the shared world'),
+                   Rule('R48', r'Some\(v\) => Ok\(XmlNode::from\(v\)\),', 'Some(v) => Ok(node_of(v)),', 'From<Rc<XmlItem>> for XmlNode -> shim'),
+                   Rule('R16', r'_ => Err\((error::DomException::\w+)\)\?,', r'_ => Err(error::Error::Dom(\1)),', '`Err(x)?` as the value of an arm: From<DomException> applied by hand')],
+            ensures=[('C13:a_node_of_another_document_is_refused', f'doc_of({ME}) != doc_of(old_child.ident) ==> r is Err && r->Err_0 == {DOM("WrongDocumentErr")} && final(world).unchanged(*old(world))'),
+                     ('C13:a_node_that_is_not_a_child_is_not_found', f'doc_of({ME}) == doc_of(old_child.ident) && !old(world).list({ME}).contains(old_child.ident) ==> r is Err && r->Err_0 == {DOM("NotFoundErr")} && final(world).unchanged(*old(world))'),
+                     ('C13:a_child_is_removed_and_answered', f'doc_of({ME}) == doc_of(old_child.ident) && old(world).list({ME}).contains(old_child.ident) ==> r is Ok && r->Ok_0.ident == old_child.ident && final(world).deleted(*old(world), {ME}, old_child.ident)')])
     return ENV, fns
 
 
